@@ -403,9 +403,106 @@ def _team_hyp_shard(ctx, i):
 
 
 # ==========================================================================
+# (c) LockWorker — the pool's coordinator — driven from one thread
+
+def run_lock(ctx, case):
+    """case = {"layer": "lock", "ops": [["do", spec] | ["quit"]]}, spec =
+    [raises, [child specs]]: when the work runs it hands its children to the
+    same LockWorker re-entrantly (they are queued behind it), then raises if
+    asked to.  Oracle (single thread, so fully deterministic): work given from
+    outside runs exactly once before do() returns or raises, with the lock
+    held, never nested inside other work; do() leaves the lock released; a
+    failing piece of work does not stop later do() calls from working; after
+    quit() do() raises AlreadyQuit."""
+    from twisted._threads import LockWorker, AlreadyQuit
+    lock = threading.Lock()
+    lw = LockWorker(lock, threading.local())
+    st_ = dict(depth=0, n=0)
+    runs = {}
+    flags = []
+    after_failure = [0]
+
+    def mk(spec, top):
+        k = st_["n"]
+        st_["n"] += 1
+        runs[k] = 0
+
+        def work():
+            runs[k] += 1
+            if st_["depth"]:
+                flags.append(("lockworker-work-nested-inside-other-work", f"work {k}"))
+            if not lock.locked():
+                flags.append(("lockworker-work-ran-without-the-lock", f"work {k}"))
+            st_["depth"] += 1
+            try:
+                for child in spec[1]:
+                    lw.do(mk(child, False)[1])
+                if spec[0]:
+                    raise TaskError(f"work {k}")
+            finally:
+                st_["depth"] -= 1
+        return k, work
+
+    quit_done = False
+    failed_before = False
+    for o in case["ops"]:
+        if o[0] == "quit":
+            if not quit_done:
+                lw.quit()
+                quit_done = True
+            continue
+        k, work = mk(o[1], True)
+        raised = None
+        try:
+            lw.do(work)
+        except TaskError as e:
+            raised = "task"
+        except AlreadyQuit:
+            raised = "quit"
+        if flags:
+            ctx.violation(flags[0][0], case, flags[0][1])
+        if quit_done:
+            if raised != "quit" or runs[k]:
+                ctx.violation("lockworker-do-after-quit-not-refused", case, f"work {k}: raised={raised}, ran {runs[k]} times")
+            continue
+        if raised == "quit":
+            ctx.violation("lockworker-do-refused-before-quit", case, f"work {k}")
+        if runs[k] != 1:
+            ctx.violation("lockworker-work-not-run-by-do" + ("-after-earlier-work-raised" if failed_before else ""),
+                          case, f"work {k} ran {runs[k]} times by the time do() returned"
+                          + (" (an earlier piece of work had raised)" if failed_before else ""))
+        if lock.locked():
+            ctx.violation("lockworker-lock-left-held", case, f"after work {k}")
+        if failed_before:
+            after_failure[0] += 1
+        if raised == "task" or any(c[0] for c in o[1][1]) or o[1][0]:
+            failed_before = True
+    for k, n in runs.items():
+        if n > 1:
+            ctx.violation("lockworker-work-ran-twice", case, f"work {k} ran {n} times")
+    ctx.count("lock: histories")
+    if after_failure[0]:
+        ctx.count("lock: do() used again on the same thread after a piece of work had raised")
+        ctx.nontrivial(dumps(case))
+
+
+_LOCK_ALPHABET = [
+    ["do", [0, []]], ["do", [1, []]], ["do", [0, [[0, []]]]], ["do", [0, [[1, []], [0, []]]]],
+    ["do", [1, [[0, []]]]], ["quit"],
+]
+
+
+def _lock_small(depth):
+    for d in range(1, depth + 1):
+        for ops in itertools.product(_LOCK_ALPHABET, repeat=d):
+            yield dict(layer="lock", ops=[list(o) for o in ops])
+
+
+# ==========================================================================
 # (b) the real ThreadPool
 
 WATCHDOG = 600.0
+JOIN_BOUND = 30.0   # hang-breaker for ThreadPool.stop(): a bounded join of a thread that should have been told to quit
 
 
 def run_pool(ctx, case):
@@ -423,18 +520,59 @@ def run_pool(ctx, case):
     pool = ThreadPool(case["min"], case["max"], name=name)
     over = []        # worker threads created although the limit was reached
 
+    fail_at = set(case.get("fail_threads", ()))   # creation indices (counted after start()) that fail
+    fault = dict(armed=False, n=0, hit=0, in_op=False)
+    hung = []
+
+    class BoundedThread(threading.Thread):
+        """A pool thread whose un-timed join() is bounded, so that a pool that
+        never tells its workers to quit becomes a violation instead of a hang."""
+
+        def __init__(self, *a, **kw):
+            super().__init__(*a, **kw)
+            self.daemon = True
+
+        def join(self, timeout=None):
+            if timeout is None:
+                super().join(0.2 if hung else JOIN_BOUND)
+                if self.is_alive():
+                    hung.append(self.name)
+            else:
+                super().join(timeout)
+
     def recording_factory(*a, **kw):
         # Runs inside the team's coordinator on the thread that asked for the
         # worker (always this thread here), so the counts are consistent.
         have, lim = pool.workers, pool.max
         if have >= lim:
             over.append((have, lim))
-        return threading.Thread(*a, **kw)
+        if fault["armed"]:
+            i = fault["n"]
+            fault["n"] += 1
+            if i in fail_at:
+                fault["hit"] += 1
+                fault["in_op"] = True
+                raise RuntimeError("can't start new thread")   # what Thread.start() says when the OS refuses
+        return BoundedThread(*a, **kw)
     pool.threadFactory = recording_factory
+
+    def faulty(fn):
+        """Run one pool operation; a thread-creation failure injected during it
+        may propagate to the caller (returns True then)."""
+        fault["in_op"] = False
+        try:
+            fn()
+        except RuntimeError:
+            if not fault["in_op"]:
+                raise
+            return True
+        return False
     started = stopped = False
     max_ever = case["max"]
     ever_started = False
     nstartw = [0]
+    refused = set()
+    after_fault = [0]
 
     def mk(k, raises, dur):
         def task():
@@ -477,16 +615,21 @@ def run_pool(ctx, case):
                 if not started and not stopped:
                     pool.start()
                     started = ever_started = True
+                    fault["armed"] = True
             elif o[0] in ("cit", "cb"):
                 k = len(spec)
                 spec[k] = (int(o[1]), o[0] == "cb", not stopped)
                 if o[0] == "cb":
-                    pool.callInThreadWithCallback(mk_cb(k), mk(k, o[1], o[2]))
+                    failed = faulty(lambda: pool.callInThreadWithCallback(mk_cb(k), mk(k, o[1], o[2])))
                 else:
-                    pool.callInThread(mk(k, o[1], o[2]))
+                    failed = faulty(lambda: pool.callInThread(mk(k, o[1], o[2])))
+                if failed:
+                    refused.add(k)       # the caller saw the failure: that submission is void
+                elif fault["hit"]:
+                    after_fault[0] += 1
             elif o[0] == "startw":
                 if not stopped:
-                    pool.startAWorker()
+                    faulty(pool.startAWorker)
                     nstartw[0] += 1
             elif o[0] == "stopw":
                 if not stopped:
@@ -496,11 +639,17 @@ def run_pool(ctx, case):
                     lo, hi = o[1], max(1, o[2])
                     lo = min(lo, hi)
                     max_ever = max(max_ever, hi)
-                    pool.adjustPoolsize(lo, hi)
+                    faulty(lambda: pool.adjustPoolsize(lo, hi))
             elif o[0] == "stop":
                 if not stopped:
                     pool.stop()
                     stopped = True
+                    if hung:
+                        with lock:
+                            busy = st_["running"]
+                        ctx.violation("pool-stop-did-not-end-its-threads" + ("-after-thread-creation-failure" if fault["hit"] else ""),
+                                      case, f"{JOIN_BOUND}s after stop() asked the team to quit, with {busy} tasks still running, "
+                                      f"threads {hung[:4]} are still waiting for work")
                     alive = [t.name for t in pool.threads if t.is_alive()]
                     alive += [t.name for t in threading.enumerate()
                               if t.name.startswith("PoolThread-" + name) and t.name not in alive]
@@ -522,6 +671,10 @@ def run_pool(ctx, case):
     with lock:
         for k, (raises, wants, before_stop) in spec.items():
             n = len(runs.get(k, []))
+            if k in refused:
+                if n > 1 or len(results.get(k, [])) > n:
+                    ctx.violation("pool-task-ran-twice", case, f"task {k} (its submission had failed) ran {n} times")
+                continue
             if not before_stop:
                 if n or results.get(k):
                     ctx.violation("pool-task-accepted-after-stop", case, f"task {k} ran {n} times after stop()")
@@ -565,6 +718,10 @@ def run_pool(ctx, case):
             ctx.count("pool: ... with min=0 (only start()'s backlog growth can run the tasks)")
     if st_["peak"] >= 2:
         ctx.count("pool: >=2 tasks ran concurrently")
+    if fault["hit"]:
+        ctx.count("pool: a thread creation failed (injected fault)")
+        if after_fault[0]:
+            ctx.count("pool: tasks submitted from the same thread after a thread-creation failure", after_fault[0])
     if nstartw[0]:
         ctx.count("pool: startAWorker used")
         if len(pool.threads) >= case["max"] or nstartw[0] >= case["max"]:
@@ -596,7 +753,7 @@ _POOL_N = len(_POOL_W) + 7
 
 def _pool_histories():
     def dec(t):
-        mm, early, xs = t
+        mm, early, fl, xs = t
         lo, hi = [0, 0, 1, 2][mm % 4], 1 + (mm // 4) % 5
         lo = min(lo, hi)
         ops = [["start"]] if early else []
@@ -610,11 +767,15 @@ def _pool_histories():
         if not early:
             # everything submitted to a pool that is started only afterwards
             ops = [o for o in ops if o[0] not in ("start", "stop")] + [["start"]]
-        return dict(layer="pool", min=lo, max=hi, ops=ops)
+        case = dict(layer="pool", min=lo, max=hi, ops=ops)
+        if fl % 3 == 2:
+            # fault: the (fl // 3)-th thread creation after start() fails once
+            case["fail_threads"] = [(fl // 3) % 4]
+        return case
     big = st.integers(0, _POOL_N * 24 - 1)
     ops = st.one_of(st.lists(big, max_size=10), st.lists(big, min_size=8, max_size=25),
                     st.lists(big, min_size=20, max_size=40))
-    return st.tuples(st.integers(0, 19), st.integers(0, 2), ops).map(dec)
+    return st.tuples(st.integers(0, 19), st.integers(0, 2), st.integers(0, 11), ops).map(dec)
 
 
 # ==========================================================================
@@ -622,6 +783,8 @@ def _pool_histories():
 def run_case(ctx, case):
     if case.get("layer") == "team":
         return run_team(ctx, case)
+    if case.get("layer") == "lock":
+        return run_lock(ctx, case)
     return run_pool(ctx, case)
 
 
@@ -646,6 +809,9 @@ def run(ctx):
         hyp_run(ctx, _team_histories(), run_case, 1500, label="team")
     else:
         ctx.shards(_team_hyp_shard, list(range(16)))
+    if ctx.has_violation():
+        return
+    enumerate_run(ctx, _lock_small(ctx.pick(5, 6)), run_case)
     if ctx.has_violation():
         return
     hyp_run(ctx, _pool_histories(), run_case, ctx.pick(200, 2500), label="pool")
